@@ -27,7 +27,7 @@ use stun::message::{Message, MessageType, CLASS_ERROR_RESPONSE, CLASS_REQUEST, C
 
 const PEER_UFRAG: &str = "peerUfrag";
 const PEER_PWD: &str = "peerPasswordpeerPassword";
-const POSITIVE_DEADLINE: Duration = Duration::from_secs(20); // only for effects the model expects
+const POSITIVE_DEADLINE: Duration = Duration::from_secs(10); // only for effects the model expects
 const PKT_DEADLINE: Duration = Duration::from_secs(30); // machinery: the packet must be handled at all
 
 #[derive(Clone, Debug)]
@@ -160,25 +160,26 @@ impl World {
         replies
     }
 
-    /// Outstanding connectivity-check transactions as {dst, uc}; None while some outstanding
-    /// transaction id has not been seen on a harness socket yet.
-    fn pend(&mut self) -> Option<BTreeSet<(String, bool)>> {
+    /// Outstanding connectivity-check transactions as {dst, uc}, and the number of outstanding
+    /// transactions whose request has not been seen on a harness socket yet.
+    fn pend(&mut self) -> (BTreeSet<(String, bool)>, usize) {
         self.drain();
         let mut out = BTreeSet::new();
+        let mut unseen = 0;
         for tx in self.agent.verif_pending_transactions() {
             match self.seen.get(&tx) {
                 Some(c) if c.check => {
                     out.insert((c.dst.clone(), c.uc));
                 }
                 Some(_) => {} // keepalive of the selected pair: not a check of the model
-                None => return None,
+                None => unseen += 1,
             }
         }
-        Some(out)
+        (out, unseen)
     }
 
     fn project(&mut self) -> Value {
-        let pend = self.pend();
+        let (pend, unseen) = self.pend();
         let rc: BTreeSet<String> = self.agent.remote_candidates().iter().map(|c| self.name_of(c.address)).collect();
         let sel = self
             .agent
@@ -190,12 +191,22 @@ impl World {
             Some(true) => "true",
             Some(false) => "false",
         };
+        // is P's first entry in the candidate list the signalled host candidate?
+        let phost = self
+            .agent
+            .remote_candidates()
+            .iter()
+            .find(|c| c.address == self.addrs["P"])
+            .map(|c| c.typ == rustrtc::transports::ice::IceCandidateType::Host)
+            .unwrap_or(false);
         json!({
             "state": st_name(self.agent.state()),
+            "phost": phost,
             "rc": rc,
             "sel": sel,
             "nom": nom,
-            "pend": pend.map(|p| p.into_iter().map(|(d, u)| json!({"dst": d, "uc": u})).collect::<Vec<_>>()),
+            "pend": pend.into_iter().map(|(d, u)| json!({"dst": d, "uc": u})).collect::<Vec<_>>(),
+            "unseen": unseen,
         })
     }
 
@@ -264,18 +275,19 @@ fn proj_eq(p: &Value, m: &Value) -> bool {
         && set(&p["rc"]) == set(&m["rc"])
         && p["sel"] == m["sel"]
         && p["nom"] == m["nom"]
-        && !p["pend"].is_null()
+        && p["phost"] == m["phost"]
+        && p["unseen"].as_u64().unwrap_or(0) == 0
         && set(&p["pend"]) == set(&m["pend"])
 }
 
 fn diff_fields(a: &Value, b: &Value) -> Vec<String> {
     let mut out = Vec::new();
-    for f in ["state", "rc", "sel", "nom", "pend"] {
+    for f in ["state", "rc", "sel", "nom", "pend", "phost"] {
         let same = if f == "rc" || f == "pend" {
             let set = |v: &Value| -> BTreeSet<String> {
                 v.as_array().map(|a| a.iter().map(|x| x.to_string()).collect()).unwrap_or_default()
             };
-            set(&a[f]) == set(&b[f]) && a[f].is_null() == b[f].is_null()
+            set(&a[f]) == set(&b[f])
         } else {
             a[f] == b[f]
         };
@@ -558,12 +570,47 @@ fn sig_of(edge: &Value) -> Value {
     })
 }
 
+/// One agent under test together with the runtime all of its tasks live on: dropping the
+/// context kills every task the agent spawned (retransmitting checks would otherwise keep
+/// sending to ports that later scenarios reuse).
+struct Ctx {
+    w: World,
+    rt: tokio::runtime::Runtime,
+}
+
+impl Ctx {
+    fn build(cfg: &Value, pre: &[Value], from: &Value, rng: &Rng) -> Result<Ctx, Value> {
+        let rt = tokio::runtime::Builder::new_current_thread().enable_all().build().unwrap();
+        let w = rt.block_on(build_world(cfg, pre, from, rng))?;
+        Ok(Ctx { w, rt })
+    }
+    /// projection taken on the runtime (socket readiness is only refreshed there)
+    fn project(&mut self) -> Value {
+        let w = &mut self.w;
+        self.rt.block_on(async {
+            tokio::task::yield_now().await;
+            w.project()
+        })
+    }
+    fn stop(self) {
+        let Ctx { w, rt } = self;
+        rt.block_on(async move { w.stop() });
+        rt.shutdown_background();
+    }
+}
+
 async fn build_world(cfg: &Value, pre: &[Value], from: &Value, rng: &Rng) -> Result<World, Value> {
     let mut w = World::new(cfg, rng.clone()).await.map_err(|e| json!({"why": "setup", "detail": e}))?;
-    for (i, a) in pre.iter().enumerate() {
-        if let Err(e) = apply(&mut w, a, false, if i % 2 == 0 { Builder::Repo } else { Builder::StunCrate }).await {
+    for (i, h) in pre.iter().enumerate() {
+        if let Err(e) = apply(&mut w, &h["a"], false, if i % 2 == 0 { Builder::Repo } else { Builder::StunCrate }).await {
             w.stop();
             return Err(json!({"why": "pre-step", "step": i, "detail": e}));
+        }
+        // wait for the (asynchronous) effects the model expects of this step
+        let p = w.wait_projection(&h["st"]).await;
+        if !proj_eq(&p, &h["st"]) {
+            w.stop();
+            return Err(json!({"why": "pre-step-state", "step": i, "expected": h["st"], "observed": p}));
         }
     }
     let p = w.wait_projection(from).await;
@@ -574,15 +621,15 @@ async fn build_world(cfg: &Value, pre: &[Value], from: &Value, rng: &Rng) -> Res
     Ok(w)
 }
 
-async fn run_group(edges: &[Value], out: &mut Vec<Value>, rng: &mut Rng, stats: &mut BTreeMap<String, u64>) {
+fn run_group(edges: &[Value], out: &mut Vec<Value>, rng: &mut Rng, stats: &mut BTreeMap<String, u64>) {
     let cfg = edges[0]["cfg"].clone();
     let pre: Vec<Value> = edges[0]["pre"].as_array().cloned().unwrap_or_default();
     let from = edges[0]["from"].clone();
-    let mut world: Option<World> = None;
+    let mut world: Option<Ctx> = None;
     for e in edges {
         if world.is_none() {
             rng.next();
-            match build_world(&cfg, &pre, &from, rng).await {
+            match Ctx::build(&cfg, &pre, &from, rng) {
                 Ok(w) => world = Some(w),
                 Err(why) => {
                     *stats.entry("skipped_edges".into()).or_default() += 1;
@@ -591,12 +638,12 @@ async fn run_group(edges: &[Value], out: &mut Vec<Value>, rng: &mut Rng, stats: 
                 }
             }
         }
-        let w = world.as_mut().unwrap();
-        let before = w.project();
+        let c = world.as_mut().unwrap();
+        let before = c.project();
         let inert = e["inert"].as_bool().unwrap();
         let rule = e["rule"].as_str().unwrap().to_string();
         let pick = if rng.below(2) == 0 { Builder::Repo } else { Builder::StunCrate };
-        let res = apply(w, &e["act"], inert, pick).await;
+        let res = c.rt.block_on(apply(&mut c.w, &e["act"], inert, pick));
         let applied = match res {
             Ok(a) => a,
             Err(err) => {
@@ -608,12 +655,21 @@ async fn run_group(edges: &[Value], out: &mut Vec<Value>, rng: &mut Rng, stats: 
         *stats.entry("edges".into()).or_default() += 1;
         *stats.entry(format!("rule_{rule}")).or_default() += 1;
         if inert {
-            let after = w.project();
+            let after = c.project();
             let changed = diff_fields(&before, &after);
             if !changed.is_empty() {
+                // the fields the rule speaks about
+                let governed: &[&str] = match rule.as_str() {
+                    "UnauthInert" => &["state", "rc", "sel", "nom"],
+                    "UnmatchedInert" => &["state", "rc", "sel", "nom", "pend"],
+                    _ => &[],
+                };
+                let hit: Vec<String> = changed.iter().filter(|f| governed.contains(&f.as_str())).cloned().collect();
                 let mut sig = sig_of(e);
-                sig["fields"] = json!(changed);
-                out.push(json!({"type": "divergence", "rule": rule, "sig": sig, "changed": changed,
+                sig["fields"] = json!(hit);
+                out.push(json!({"type": if hit.is_empty() { "drift" } else { "divergence" },
+                    "rule": if hit.is_empty() { "EXT".to_string() } else { rule.clone() },
+                    "sig": sig, "changed": changed, "why": {"why": "inert-step-moved"},
                     "before": before, "after": after, "reply": applied.reply, "builders": applied.builders, "case": e}));
                 world.take().unwrap().stop(); // the agent is no longer in the group's pre-state
                 continue;
@@ -625,7 +681,7 @@ async fn run_group(edges: &[Value], out: &mut Vec<Value>, rng: &mut Rng, stats: 
         } else {
             // a step the property leaves free: compared with the model under EXT only
             let want = e["to"].clone();
-            let after = w.wait_projection(&want).await;
+            let after = c.rt.block_on(c.w.wait_projection(&want));
             if !proj_eq(&after, &want) {
                 out.push(json!({"type": "drift", "why": {"why": "post-state", "expected": want, "observed": after},
                     "cfg": cfg, "pre": pre, "act": e["act"], "rule": "EXT"}));
@@ -658,7 +714,6 @@ fn main() {
         let k = format!("{}|{}", e["cfg"], e["pre"]);
         groups.entry(k).or_default().push(e);
     }
-    let rt = tokio::runtime::Builder::new_current_thread().enable_all().build().unwrap();
     let mut out = Vec::new();
     let mut stats: BTreeMap<String, u64> = BTreeMap::new();
     let mut rng = Rng::from_env();
@@ -673,7 +728,24 @@ fn main() {
         let mut es = es.clone();
         es.sort_by_key(|e| !e["inert"].as_bool().unwrap());
         let mut grng = Rng(rng.next() ^ gi as u64);
-        rt.block_on(run_group(&es, &mut out, &mut grng, &mut stats));
+        let g0 = Instant::now();
+        let n0 = out.len();
+        run_group(&es, &mut out, &mut grng, &mut stats);
+        if std::env::var("VERIF_DEBUG").is_ok() {
+            eprintln!(
+                "group {gi} edges={} t={:.2}s new_records={} pre={}",
+                es.len(),
+                g0.elapsed().as_secs_f64(),
+                out.len() - n0,
+                es[0]["pre"].as_array().map(|a| a.iter().map(|h| h["a"].to_string()).collect::<Vec<_>>().join(" ; ")).unwrap_or_default()
+            );
+            for r in &out[n0..] {
+                if r["type"] == "drift" || r["type"] == "toolerror" {
+                    eprintln!("   {}", r.to_string().chars().take(600).collect::<String>());
+                    break;
+                }
+            }
+        }
     }
     let mut o = NdjsonOut::create(&args[2]);
     for r in &out {
